@@ -633,7 +633,11 @@ func (g *pgen) block(env []variable, n int, depth int, inFunc, inLoop bool, uppe
 			}
 			g.swDepth++
 			callCases := r.Chance(20) && len(g.funcsRet(t)) > 0 // every case value is (or contains) a call
+			airy := r.Chance(20)                                 // blank and comment-only lines between the cases
 			for c := r.Pick2([]int{0, 1, 2, 2, 3, 3}); c > 0; c-- {
+				if airy {
+					g.sb.WriteString(r.Pick([]string{"\n", "\n\n", "\t\n", "// next\n"}))
+				}
 				if callCases {
 					ce := g.callExpr(Pick(r, g.funcsRet(t)), env, 1)
 					if t == "int" && r.Chance(40) {
